@@ -218,7 +218,8 @@ func Gen(rt *rapid.T, p Params) *Tree {
 					}
 				}
 			}
-		case p.Forks && quiet && gen.Chance(rt, 10, "quietfork"):
+		case p.Forks && quiet && n <= 256 && gen.Chance(rt, 10, "quietfork"):
+			// (chains of more than 256 blocks stay linear: every side branch would shorten the way from the tip to the root)
 			// a short side branch near the tip or anywhere along the chain (the main chain stays long)
 			b.Prev = t.Blocks[gen.Uniform(rt, max(0, i-1-gen.Uniform(rt, 0, 30, "forkback")), i-1, "quietparent")].Hash
 		default:
